@@ -152,6 +152,22 @@ def check(ctx):
                 body = ast.Module(body=dif[0].body, type_ignores=[])
                 ok = converts_elementwise(body, "a.items()") or converts_elementwise(body, "a.values()")
                 detail = "" if ok else "dict argument is wrapped without converting its values: keys referenced inside it are reported as dependencies (keys_in_tasks descends into w.values()) but never substituted"
+                # ... and ONLY the values: the extractor does not look at dict keys, so a dict key that
+                # happens to equal a graph key must stay a literal
+                dcs = [d for d in ast.walk(body) if isinstance(d, ast.DictComp)]
+                vals_only = any(
+                    len(d.generators) == 1
+                    and unparse(d.generators[0].iter) == "a.items()"
+                    and isinstance(d.generators[0].target, ast.Tuple)
+                    and isinstance(d.key, ast.Name)
+                    and d.key.id == unparse(d.generators[0].target.elts[0])
+                    and isinstance(d.value, ast.Call)
+                    and call_name(d.value) == rec
+                    and any(unparse(x) == unparse(d.generators[0].target.elts[1]) for x in d.value.args)
+                    for d in dcs
+                )
+                if ok:
+                    ctx.ob("SIB.extract-convert.dict-values-only", dif[0], "dict argument: values are converted, keys stay literal ({k: convert(v) for k, v in a.items()})", vals_only, "" if vals_only else "dict keys are converted as well: a label equal to a graph key becomes a reference (and a dependency the extractor never reports)")
             ctx.ob("SIB.extract-convert", dif[0] if dif else task_if, "dict argument: extractor descends into values; converter converts each value", ok, detail)
         elif kind in ("GraphNode", "TaskRef"):
             ok = kind == "TaskRef" or any(isinstance(n, ast.If) and unparse(n.test) == "isinstance(task, GraphNode)" and any(isinstance(x, ast.Return) and unparse(x.value) == "task" for x in n.body) for n in conv.body)
@@ -191,6 +207,21 @@ def check(ctx):
     ok = bool(skip) and "t.target == k" in unparse(skip[0].test)
     ctx.ob("DOM.convert-graph.self-alias", clg, "only a self-alias (target == key) is dropped", ok)
 
+    # ---------------- optional key parameters: 0, 0.0 and '' are legal keys, so "not given" must be
+    #                  tested with `is None`, never by truthiness
+    n_def = 0
+    for qn, cn in ts.classes():
+        ci_ = model.classinfo(ts, cn)
+        init_ = ci_.own_methods.get("__init__")
+        if init_ is None:
+            continue
+        for asg_, p_, by_none, by_truth, raw in none_default_rebinds(init_):
+            if not (by_none or by_truth):
+                continue  # a normalisation (isinstance(...) branches), not a default substitution
+            n_def += 1
+            ctx.ob("DOM.none-default", asg_, f"{ci_.name}.__init__: `{p_}` defaults only when it is None", by_none and not by_truth, "" if by_none and not by_truth else f"`{p_}` is replaced whenever it is falsy: the legal keys 0, 0.0 and '' are treated as 'not given'")
+    ctx.count("none_default_rebinds", n_def)
+    ctx.floor("none_default_rebinds", 1)
     # ---------------- Task.__init__ vs __call__
     task = model.klass(TS, "Task")
     init = task.own_methods["__init__"]
@@ -312,6 +343,8 @@ VARIANTS = [
     (TS, "        state[ix] = state[ix].copy()\n", "", "TAB.pickle.nested-constructor"),
     (TS, "        return Alias, (self.key, self.target)", "        return Alias, (self.target, self.key)", "TAB.pickle.reduce"),
     (TS, "            if task in all_keys:\n", "            if True:\n", "DOM.key-reference"),
+    (TS, "        if target is None:\n            target = key", "        if not target:\n            target = key", "DOM.none-default"),
+    (TS, "{k: convert_legacy_task(None, v, all_keys) for k, v in a.items()}", "{convert_legacy_task(None, k, all_keys): convert_legacy_task(None, v, all_keys) for k, v in a.items()}", "dict-values-only"),
     (TS, "        elif not isinstance(t, GraphNode):\n            t = DataNode(k, t)", "        elif not isinstance(t, GraphNode):\n            t = t", "TYPED.convert-graph.wrap"),
     (TS, "            parsed_args = tuple(convert_legacy_task(None, t, all_keys) for t in task)", "            parsed_args = tuple(task)", "SIB.extract-convert"),
     (CORE, "            elif typ is list:\n                work.extend(w)\n            elif typ is dict:\n                work.extend(w.values())", "            elif typ is list or typ is dict:\n                work.extend(w)", "SIB.extract.projection"),
